@@ -2,6 +2,9 @@
 package c17
 
 import (
+	"sync/atomic"
+	"time"
+	"runtime"
 	auto "github.com/moorara/algo/automata"
 	"crypto/sha256"
 	"encoding/json"
@@ -306,7 +309,52 @@ func isSpec(i int) bool { return i < len(specPool) }
 
 func process(i int) string { s, _ := processK(i); return s }
 
+var blockedEarlier atomic.Bool
+
+// processK processes a pool item and notices when the call blocks (see blockedVerdict): the result is then a text
+// that no baseline equals, so the block is reported like any other difference from the isolated run.
 func processK(i int) (string, func() string) {
+	if os.Getenv("VERIF_WORKER_ITEM") != "" || os.Getenv("VERIF_WORKER_PHASE") != "" {
+		return processRaw(i)
+	}
+	if blockedEarlier.Load() {
+		return "BLOCKED: an earlier call in this process never returned\n", nil
+	}
+	type res struct {
+		s string
+		k func() string
+	}
+	done := make(chan res, 1)
+	go func() { s, k := processRaw(i); done <- res{s, k} }()
+	for {
+		c0 := selfCPU()
+		select {
+		case r := <-done:
+			return r.s, r.k
+		case <-time.After(90 * time.Second):
+		}
+		if v := blockedVerdict(selfCPU() - c0); v != "" {
+			blockedEarlier.Store(true)
+			return "BLOCKED: the call does not return: " + v + "\n", nil
+		}
+	}
+}
+
+// blockedVerdict: no result after 90 s although this process used less than 2 s of processor time meanwhile and the
+// machine is not overloaded (load below 3 per core) means that the call waits for something that never comes (an item
+// takes well under a second). A busy machine gives no verdict: the wait goes on.
+func blockedVerdict(used time.Duration) string {
+	load := 0.0
+	if data, err := os.ReadFile("/proc/loadavg"); err == nil {
+		fmt.Sscanf(string(data), "%f", &load)
+	}
+	if used < 2*time.Second && load < 3*float64(runtime.NumCPU()) {
+		return fmt.Sprintf("blocked for 90 s with %v of processor time used by the whole process (load average %.1f)", used, load)
+	}
+	return ""
+}
+
+func processRaw(i int) (string, func() string) {
 	if isSpec(i) {
 		return specSignatureK(specPool[i])
 	}
@@ -606,6 +654,15 @@ func TestManyCallsLeaveNothingBehind(t *testing.T) {
 			calls += 2
 		}
 	}
+	// a dozen specifications whose patterns are rejected when the automaton is asked for (error paths give back what they took)
+	for round := 0; round < 6; round++ {
+		for _, i := range hotItems() {
+			if strings.Contains(specPool[i], "BAD = ") {
+				_ = process(i)
+				calls++
+			}
+		}
+	}
 	rec.Count("earlier_calls_before_the_pool", calls)
 	// patterns first: nothing that processing a specification may reset has happened yet
 	order := []int{}
@@ -616,12 +673,43 @@ func TestManyCallsLeaveNothingBehind(t *testing.T) {
 		order = append(order, i)
 	}
 	for _, i := range order {
-		got := process(i)
+		got, blocked := processWithin(i)
+		if blocked != "" {
+			rec.Fail(t, "bulk", map[string]any{"item": i}, "after %d earlier calls in the same process, processing pool item %d does not return: %s\n--- item:\n%s", calls, i, blocked, head(itemText(i)))
+			return
+		}
 		rec.Case(fmt.Sprintf("after-bulk:%d", i), true, "after_many_calls")
 		if got != base[i] {
 			rec.Fail(t, "bulk", map[string]any{"item": i}, "after %d earlier calls in the same process (long repetition ranges, large classes, many groups), pool item %d gives a different result than alone\n--- item:\n%s\n--- isolated:\n%s--- here:\n%s", calls, i, head(itemText(i)), base[i], got)
 		}
 	}
+}
+
+func processWithin(i int) (string, string) {
+	got := process(i)
+	if strings.HasPrefix(got, "BLOCKED:") {
+		return "", strings.TrimSpace(got)
+	}
+	return got, ""
+}
+
+func selfCPU() time.Duration {
+	data, err := os.ReadFile("/proc/self/stat")
+	if err != nil {
+		return 0
+	}
+	s := string(data)
+	if k := strings.LastIndexByte(s, ')'); k >= 0 {
+		s = s[k+1:]
+	}
+	f := strings.Fields(s)
+	if len(f) < 13 {
+		return 0
+	}
+	var ut, st int64
+	fmt.Sscanf(f[11], "%d", &ut)
+	fmt.Sscanf(f[12], "%d", &st)
+	return time.Duration(ut+st) * (time.Second / 100)
 }
 
 type roundResult struct {
